@@ -39,6 +39,7 @@ class VisorTarInfo(tarfile.TarInfo):
         if self.is_visor and self.offset_data:
             # Don't advance the offset with the filesize
             tarfile.offset = tarfile.fileobj.tell()
+            self._next_header = tarfile.offset
 
             # Patch the TarInfo object with saved global
             # header information.
@@ -47,6 +48,16 @@ class VisorTarInfo(tarfile.TarInfo):
             return self
 
         return super()._proc_member(tarfile)
+
+    def _proc_pax(self, tarfile: tarfile.TarFile) -> VisorTarInfo | tarfile.TarInfo:
+        next = super()._proc_pax(tarfile)
+
+        if getattr(next, "is_visor", False) and next.offset_data and getattr(next, "_next_header", None) is not None:
+            # A pax "size" record makes tarfile recalculate the position of the next header from offset_data,
+            # which for visor members is not the position after the header but the position of the file data
+            tarfile.offset = next._next_header
+
+        return next
 
 
 def VisorTarFile(*args, **kwargs) -> tarfile.TarFile:
